@@ -86,6 +86,12 @@ func scenariosFor(prop string, thorough bool) []*scenario {
 			Progs: []txn.Prog{W("T1", op("update", "a", 1, "t1")), W("T2", op("remove", "a", 5))}})
 		add(&scenario{Name: "removes-emptying-siblings", Stores: []txn.StoreSpec{store("a", 2, "node", 1, "a", 2, "b", 3, "c", 4, "d", 5, "e")},
 			Progs: []txn.Prog{W("T1", op("remove", "a", 1)), W("T2", op("remove", "a", 5))}})
+		// two-level trees: the first committer splits a leaf below the root (and restructures the parent) that the
+		// second writer only read on its way down
+		add(&scenario{Name: "adds-split-leaf-below-root-slot2", Stores: []txn.StoreSpec{store("a", 2, "node", 10, "a", 20, "b", 30, "c", 40, "d", 50, "e")},
+			Progs: []txn.Prog{W("T1", op("add", "a", 60, "t1"), op("add", "a", 70, "t1")), W("T2", op("add", "a", 80, "t2"))}})
+		add(&scenario{Name: "adds-split-leaf-below-root-slot4", Stores: []txn.StoreSpec{store("a", 4, "node", 10, "a", 20, "b", 30, "c", 40, "d", 50, "e", 60, "f", 70, "g", 80, "h")},
+			Progs: []txn.Prog{W("T1", op("add", "a", 61, "t1"), op("add", "a", 62, "t1")), W("T2", op("add", "a", 85, "t2"))}})
 		add(&scenario{Name: "adds-segment-values", Stores: []txn.StoreSpec{store("a", 2, "segment", 1, "x", 2, "y")},
 			Progs: []txn.Prog{W("T1", op("add", "a", 3, "t1")), W("T2", op("add", "a", 4, "t2"))}})
 		add(&scenario{Name: "three-adders", Stores: []txn.StoreSpec{store("a", 2, "node", 1, "x", 2, "y")},
